@@ -83,6 +83,11 @@ package main
 //@   assert at call Delta#1 [C05] want_delta:  ($0 == oldWant && $1 == newWant) || ($0 == oldGiven && $1 == newGiven && !(newWant != types.ModeInvalid && newWant != types.ModeUnset && oldWant != types.ModeInvalid && oldWant != types.ModeUnset && oldWant != types.ModeNone))
 //@   assert at call Delta#2 [C05] given_delta: $0 == oldGiven && $1 == newGiven
 //@   modifies inferred
+// (muting and un-muting are judged by the effective mode - requested AND granted - before and after: a member of a
+// group who gains P is asked to learn the group's status (and gets the permission notice: two notices on 'me'); one
+// who loses P is told to discard the group's updates)
+//@   ensures [C10] unmuted_member_learns_group_status: newWant != types.ModeUnset && newGiven != types.ModeUnset && t.cat == types.TopicCatGrp && !isChan && (newWant & newGiven & types.ModePres) != 0 && (oldWant & oldGiven & types.ModePres) == 0 ==> called("presSingleUserOffline") == old(called("presSingleUserOffline")) + 2
+//@   ensures [C10] muted_member_told_to_discard: t.name != "" && newWant != types.ModeUnset && newGiven != types.ModeUnset && t.cat == types.TopicCatGrp && !isChan && (newWant & newGiven & types.ModePres) == 0 && (oldWant & oldGiven & types.ModePres) != 0 ==> called("presSingleUserOfflineOffline") == old(called("presSingleUserOfflineOffline")) + 1
 
 //@ func (t *Topic) updateAcsFromPresMsg(pres *MsgServerPres)
 //@   requires [C05] t != nil && pres != nil && pres.Acs != nil
@@ -1048,7 +1053,7 @@ package main
 // An idle topic that unloads says so: a 'me' topic tells the user's contacts "off", a group tells its members "off" -
 // channel-enabled or not.
 //@ func (t *Topic) handleTopicTimeout(hub *Hub, currentUA string, uaTimer *time.Timer, defrNotifTimer *time.Timer)
-//@   requires t != nil && hub != nil && uaTimer != nil && defrNotifTimer != nil
+//@   requires [C10,assumed] t != nil && hub != nil && uaTimer != nil && defrNotifTimer != nil
 // (package-level values initialised once: `var nilPresParams = &presParams{}`, `var nilPresFilters = &presFilters{}`)
 //@   requires [C10,assumed] nilPresParams != nil && nilPresFilters != nil
 //@   modifies *
@@ -1152,3 +1157,22 @@ package main
 //@   loop 1
 //@     invariant [C20] so_far: 0 <= #idx && #idx <= len(in) && len(out) == len(in)
 //@     iterates [C20] every_field_kept: out[prev(#idx)] != nil && out[prev(#idx)].Method == in[prev(#idx)].Method && out[prev(#idx)].Value == in[prev(#idx)].Value && out[prev(#idx)].Done == in[prev(#idx)].Done
+
+// C10: the topic loop. A topic left without a single attached session after handling a subscription request or a
+// {get}/{set}/{del} request (a refused {sub}, a member who bans himself, an eviction) has its idle timer running
+// again - otherwise it is never unloaded and its members are never told that it went offline. (Leaving sessions
+// restart the timer in unregisterSession itself.)
+// (the contact table of a 'me' topic is well-formed - a disabled contact is recorded offline - whenever a server
+// message is handled: established by addToPerSubs and procPresReq, assumed here of everything else the loop runs)
+//@ func (t *Topic) handleServerMsg(msg *ServerComMessage)
+//@   requires [C10,assumed] contact_table_wf: t != nil && msg != nil && (forall k string :: (k in t.perSubs) && !t.perSubs[k].enabled ==> !t.perSubs[k].online)
+//@   modifies *
+//@ func (t *Topic) runLocal(hub *Hub)
+//@   requires [C10] t != nil && hub != nil
+//@   modifies *
+//@   loop 1
+//@     iterates [C10] idle_after_request_restarts_timer: called("handleMeta") > prev(called("handleMeta")) || called("registerSession") > prev(called("registerSession")) ==> called("restartKillTimerIfIdle") > prev(called("restartKillTimerIfIdle"))
+//@ func (t *Topic) restartKillTimerIfIdle()
+//@   requires [C10,assumed] t != nil && t.killTimer != nil
+//@   modifies inferred
+//@   ensures [C10] idle_topic_counts_down: len(t.sessions) == 0 && t.cat != types.TopicCatSys ==> called("Reset") == old(called("Reset")) + 1
